@@ -69,37 +69,55 @@ Section WithCodec.
   Qed.
 End WithCodec.
 
-(* every interleaving of locked units is the sequence of the atomic bulk steps in lock order *)
-Lemma locked_units : forall cbs order bs pend,
-  exists pend',
-    run_events cbs (WSt (dfile bs) (mfile bs 0) (length (dfile bs)) (length (mfile bs 0)) pend)
-               (locked order)
-    = let bs' := bs ++ map (fun i => nth i cbs no_bulk) order in
-      WSt (dfile bs') (mfile bs' 0) (length (dfile bs')) (length (mfile bs' 0)) pend'.
+(* every interleaving of locked units - successful or failing, with the rollback target read
+   inside the unit - is the sequence of the atomic bulk steps of the successful ones in lock order;
+   a failed unit is the identity on files and writer offsets, whatever ran before it *)
+Lemma locked_units : forall cbs us bs pend snap,
+  exists pend' snap',
+    run_events cbs (WSt (dfile bs) (mfile bs 0) (length (dfile bs)) (length (mfile bs 0)) pend snap)
+               (locked us)
+    = let bs' := bs ++ flat_map (unit_ok cbs) us in
+      WSt (dfile bs') (mfile bs' 0) (length (dfile bs')) (length (mfile bs' 0)) pend' snap'.
 Proof.
-  intros cbs order. induction order as [| i r IH]; intros bs pend.
-  - exists pend. cbn. rewrite app_nil_r. reflexivity.
-  - cbn [locked flat_map app run_events fold_left ev_step
-         w_docs w_meta w_offd w_offm w_pend find fst snd].
-    rewrite Nat.eqb_refl. cbn [snd fst w_docs w_meta w_offd w_offm w_pend].
-    rewrite !write_at_end.
-    set (b := nth i cbs no_bulk).
-    rewrite <- (dfile_snoc bs b), <- (mfile_snoc bs b).
-    replace (length (dfile bs) + length (dblock b)) with (length (dfile (bs ++ [b])))
-      by (rewrite dfile_snoc, app_length; reflexivity).
-    replace (length (mfile bs 0) + length (mblock b (length (dfile bs))))
-      with (length (mfile (bs ++ [b]) 0)) by (rewrite mfile_snoc, app_length; reflexivity).
-    destruct (IH (bs ++ [b]) ((i, length (dfile bs)) :: pend)) as (pend' & E).
-    exists pend'. unfold run_events, locked in E. rewrite E.
-    cbn [map]. fold b. rewrite <- app_assoc. reflexivity.
+  intros cbs us. induction us as [| u r IH]; intros bs pend snap.
+  - exists pend, snap. cbn. rewrite app_nil_r. reflexivity.
+  - unfold run_events, locked in *. cbn [flat_map]. rewrite fold_left_app.
+    destruct u as [i | i [|] cut].
+    + (* successful unit *)
+      cbn [unit_events fold_left ev_step w_docs w_meta w_offd w_offm w_pend w_snap find fst snd].
+      rewrite Nat.eqb_refl. cbn [snd fst w_docs w_meta w_offd w_offm w_pend w_snap].
+      rewrite !write_at_end.
+      set (b := nth i cbs no_bulk).
+      rewrite <- (dfile_snoc bs b), <- (mfile_snoc bs b).
+      replace (length (dfile bs) + length (dblock b)) with (length (dfile (bs ++ [b])))
+        by (rewrite dfile_snoc, app_length; reflexivity).
+      replace (length (mfile bs 0) + length (mblock b (length (dfile bs))))
+        with (length (mfile (bs ++ [b]) 0)) by (rewrite mfile_snoc, app_length; reflexivity).
+      destruct (IH (bs ++ [b]) ((i, length (dfile bs)) :: pend)
+                   ((i, (length (dfile bs), length (mfile bs 0))) :: snap)) as (pend' & snap' & E).
+      exists pend', snap'. rewrite E. cbn [unit_ok app]. fold b. rewrite <- app_assoc. reflexivity.
+    + (* the meta write fails: docs block and partial meta block are cut off again *)
+      cbn [unit_events fold_left ev_step w_docs w_meta w_offd w_offm w_pend w_snap find fst snd].
+      rewrite Nat.eqb_refl. cbn [snd fst w_docs w_meta w_offd w_offm w_pend w_snap find].
+      rewrite Nat.eqb_refl. cbn [snd fst].
+      rewrite !write_at_end, !firstn_app_len.
+      destruct (IH bs ((i, length (dfile bs)) :: pend)
+                   ((i, (length (dfile bs), length (mfile bs 0))) :: snap)) as (pend' & snap' & E).
+      exists pend', snap'. rewrite E. reflexivity.
+    + (* the docs write fails *)
+      cbn [unit_events fold_left ev_step w_docs w_meta w_offd w_offm w_pend w_snap find fst snd].
+      rewrite Nat.eqb_refl. cbn [snd fst].
+      rewrite write_at_end, firstn_app_len, firstn_all.
+      destruct (IH bs pend ((i, (length (dfile bs), length (mfile bs 0))) :: snap)) as (pend' & snap' & E).
+      exists pend', snap'. rewrite E. reflexivity.
 Qed.
 
-Lemma locked_units_meta_order : forall cbs order bs pend,
+Lemma locked_units_meta_order : forall cbs us bs pend snap,
   meta_describes_docs
     (w_meta (run_events cbs
-       (WSt (dfile bs) (mfile bs 0) (length (dfile bs)) (length (mfile bs 0)) pend)
-       (locked order))) = true.
+       (WSt (dfile bs) (mfile bs 0) (length (dfile bs)) (length (mfile bs 0)) pend snap)
+       (locked us))) = true.
 Proof.
-  intros. destruct (locked_units cbs order bs pend) as (pend' & E). rewrite E. cbn [w_meta].
+  intros. destruct (locked_units cbs us bs pend snap) as (pend' & snap' & E). rewrite E. cbn [w_meta].
   rewrite <- (app_nil_r (mfile _ 0)). apply meta_describes_blocks, eof_tail_nil.
 Qed.
